@@ -196,7 +196,20 @@ def check(fb, ctx):
     rets = [r for r in find_all(ah["body"], lambda z: z.get("k") == "ret")]
     guard = [n for n in find_all(ah["body"], lambda z: z.get("k") == "if") if mcalls(n["cond"], r"Result::<T, E>::is_ok$") and find_all(n["then"], lambda z: z.get("k") == "ret")]
     tail_err = bool(hirq.err_variant(hirq.tail(ah["body"])))
-    ctx.check(bool(vals) and len(guard) == 1 and tail_err, "AUTODETECT", "PEM/DER: try every algorithm, first success wins, else Err", "AUTODETECT|parse_any_algorithm", "expected `for a in Algorithm::values() { let r = parse(i, *a); if r.is_ok() { return r } } Err(..)`", f"{ab['file']}:{ab['line']}")
+    ok_auto = bool(vals) and len(guard) == 1 and tail_err
+    if not ok_auto and vals:
+        # the same search as an iterator chain: `values().iter().map(|a| parse(i, *a)).find(Result::is_ok).unwrap_or_else(|| Err(..))`
+        t_ = strip(hirq.tail(ah["body"]))
+        if isinstance(t_, dict) and t_.get("k") == "mcall" and t_.get("name") in ("unwrap_or_else", "unwrap_or") and t_.get("args"):
+            dflt = strip(t_["args"][0])
+            dflt_err = bool(hirq.err_variant(dflt["body"] if dflt.get("k") == "closure" else dflt))
+            f_ = strip(t_["recv"])
+            is_find = isinstance(f_, dict) and f_.get("k") == "mcall" and f_.get("name") == "find" and f_.get("args") and (
+                (strip(f_["args"][0]).get("k") == "path" and (strip(f_["args"][0]).get("res", {}).get("path") or "").endswith("is_ok")) or bool(mcalls(f_["args"][0], r"Result::<T, E>::is_ok$")))
+            m_ = strip(f_["recv"]) if is_find else None
+            is_map = isinstance(m_, dict) and m_.get("k") == "mcall" and m_.get("name") == "map" and bool(find_all(m_["recv"], lambda z: any(z is v_ for v_ in vals))) and not find_all(m_["recv"], lambda z: z.get("k") == "mcall" and z.get("name") in ("filter", "skip", "take", "rev", "step_by", "skip_while", "take_while"))
+            ok_auto = dflt_err and is_find and is_map
+    ctx.check(ok_auto, "AUTODETECT", "PEM/DER: try every algorithm, first success wins, else Err", "AUTODETECT|parse_any_algorithm", "expected `for a in Algorithm::values() { let r = parse(i, *a); if r.is_ok() { return r } } Err(..)`", f"{ab['file']}:{ab['line']}")
     vb = fb.hir_of("biscuit_auth::token::builder::algorithm::Algorithm::values")
     names = sorted({(hirq.ctor_name(z) or "").split("::")[-1] for z in find_all(vb["body"], lambda z: "Algorithm::" in (hirq.ctor_name(z) or ""))})
     allv = sorted(fb.variants("biscuit_auth::token::builder::algorithm::Algorithm"))
